@@ -1,6 +1,43 @@
 package vsched
 
-import "reflect"
+import (
+	"reflect"
+	"sync/atomic"
+	"time"
+)
+
+// Free-running (native) mode: no exploration is active and every operation falls through to the
+// real primitive. It is used for single-threaded set-up and for the separate -race pass that guards
+// the assumption that scheduling at synchronisation operations is sufficient.
+
+// NativeTimeScale divides the durations of After / Sleep in native mode (the -race pass runs
+// scenarios whose timers are seconds long).
+var NativeTimeScale = 1
+
+var nativeLive atomic.Int64
+
+var nativeStart = time.Now()
+
+// nativeNow is the real clock, running NativeTimeScale times faster (consistent with After/Sleep).
+func nativeNow() time.Time {
+	if NativeTimeScale == 1 {
+		return time.Now()
+	}
+	return nativeStart.Add(time.Since(nativeStart) * time.Duration(NativeTimeScale))
+}
+
+// NativeIdle waits until every goroutine started through Go / GoNamed in native mode has returned,
+// or the timeout passes.
+func NativeIdle(timeout time.Duration) bool {
+	deadline := time.Now().Add(timeout)
+	for nativeLive.Load() != 0 {
+		if time.Now().After(deadline) {
+			return false
+		}
+		time.Sleep(200 * time.Microsecond)
+	}
+	return true
+}
 
 // nativeSelect performs a real select (no exploration active) using reflection.
 func nativeSelect(hasDefault bool, cases []Case) int {
@@ -21,7 +58,9 @@ func nativeSelect(hasDefault bool, cases []Case) int {
 	return i
 }
 
-type nativeSetter interface{ setNative(v reflect.Value, ok bool) }
+type nativeSetter interface {
+	setNative(v reflect.Value, ok bool)
+}
 
 func (c *RC[T]) setNative(v reflect.Value, ok bool) {
 	c.ok = ok
